@@ -75,7 +75,7 @@ func listBufferQueueIDs(parentLogger logger.Logger, rootPath string, matchChunkI
 			parentLogger.Errorf("error stating entry path='%s': %s", path, serr.Error())
 			continue
 		}
-		if stat.Mode&unix.DT_DIR == 0 {
+		if stat.Mode&unix.S_IFMT != unix.S_IFDIR {
 			continue
 		}
 
